@@ -227,6 +227,11 @@ var hazardArgs = map[string][]string{
 		`<a><a x="1"/></a>`,
 		"<interface><interface name=\"ge-0/0/0\"/>\n</interface>",
 		`<group><item>1</item><group /></group>`,
+		`<a><a x="1" /></a>`,
+		`<a><a><a x="1"/></a></a>`,
+		"<a><a><a /></a> </a>",
+		"<a><a x=\"1\"/><a y=\"2\"/>\n</a>",
+		`<a x="1"><a x="1"></a></a>`,
 	},
 	"cdata-with-markup": {
 		`<script><![CDATA[if (a > b) { emit("<b></b>") }]]></script>`,
